@@ -23,6 +23,7 @@ def check(ctx):
     scopes.rule_scope_pairing(ctx, facts, "R2")
     scopes.rule_scope_always_opened(ctx, facts, "R2")
     scopes.rule_handle_stays_in_guard(ctx, facts, "R2")
+    scopes.rule_unregister_always_pops(ctx, facts, "R2")
     provrules.rule_scope_parent(ctx, facts, "R3")
     scopes.rule_epochs(ctx, facts, "R3")
     scopes.rule_epoch_representation(ctx, facts, "R3")
